@@ -118,6 +118,19 @@ func makeRemoteSource(sourceType string, u *url.URL, subPath string) (RemoteSour
 		return RemoteSource{}, err
 	}
 
+	// Packages are compared using ==, so two URLs that print alike must be
+	// alike field by field: userinfo, a pointer, is not allowed, and the
+	// optional raw spellings are kept only where printing uses them.
+	if u.User != nil {
+		return RemoteSource{}, fmt.Errorf("must not use username or password in URL portion")
+	}
+	if u.RawPath != "" && (u.RawPath != u.EscapedPath() || u.RawPath == (&url.URL{Path: u.Path}).EscapedPath()) {
+		u.RawPath = ""
+	}
+	if u.RawFragment != "" && (u.RawFragment != u.EscapedFragment() || u.RawFragment == (&url.URL{Fragment: u.Fragment}).EscapedFragment()) {
+		u.RawFragment = ""
+	}
+
 	return RemoteSource{
 		pkg: RemotePackage{
 			sourceType: sourceType,
